@@ -87,6 +87,20 @@ IntAt(n)   == Pick(<<"1", "0", "25", "7">>, n)
 DecAt(n)   == Pick(<<"1.5", "0.25">>, n)
 HeadAt(n)  == Pick(<<"P", "U", "W3">>, n)
 
+(* Identifiers that embed a keyword next to `_`, a letter or a digit: the   *)
+(* parsers find keyword separators (distinct, limit, order_by, then, else, *)
+(* in, combine ...) by text search with a word-boundary test, so these     *)
+(* names are where the two word-boundary tests can differ.                 *)
+KwVars   == {"on_then", "else_value", "y_in", "is_null", "thenx", "distinct2",
+             "limits", "prelimit", "in_y", "combine_y", "if_y", "max_limit"}
+KwPreds  == {"Count_distinct", "Rate_limit", "Order_by_x", "Distinct2",
+             "Limits", "Prelimit", "ThenX", "Else_if", "Is_in", "Combine_all",
+             "Couldbe_x", "In_list"}
+KwFields == {"max_limit", "order_by_f", "in_f", "distinct_f", "then2"}
+KwFns    == {"Count_distinct", "Is_in", "ThenX", "Limits"}
+KwHeads  == {"Count_distinct", "Rate_limit", "Order_by_x", "Distinct2",
+             "Else_if", "In_list"}
+
 -----------------------------------------------------------------------------
 (* Emitting the terminals / range markers that surfaced on the stack.      *)
 RECURSIVE Norm(_)
@@ -250,6 +264,13 @@ HeadShape ==
                 \o <<P(")"), KW("distinct")>>)
      \/ Apply("head_value_distinct", 1,
               HCall \o <<P("=")>> \o ExprAny \o <<KW("distinct")>>)
+     \/ \E p \in KwHeads :
+          Apply("kwid_head:" \o p, 1,
+                <<T("pred", p), GP("("), N("HeadArgs"), P(")")>>)
+     \/ \E p \in {"Rate_limit", "Count_distinct", "Order_by_x", "Distinct2"} :
+          Apply("kwid_head_denoted:" \o p, 1,
+                <<T("pred", p), GP("("), N("HeadArgs"), P(")"),
+                  KW("distinct")>> \o OrderBy \o Limit)
      \/ Apply("head_order_by", 1, HCall \o OrderBy)
      \/ Apply("head_limit", 1, HCall \o Limit)
      \/ Apply("head_order_by_limit", 1, HCall \o OrderBy \o Limit)
@@ -267,6 +288,9 @@ HeadArgs ==
      \/ Apply("args_pos_named", 1,
               ExprAny \o <<P(","), T("field", FieldAt(Here)), P(":")>>
               \o ExprAny)
+     \/ \E f \in KwFields :
+          Apply("kwid_field:" \o f, 1, <<T("field", f), P(":")>> \o ExprAny)
+     \/ Apply("kwid_field_short", 1, <<T("field", "max_limit"), P(":")>>)
      \/ Apply("args_short", 1, <<T("field", FieldAt(Here)), P(":")>>)
      \/ Apply("args_pos_short", 1,
               ExprAny \o <<P(","), T("field", FieldAt(Here)), P(":")>>)
@@ -299,6 +323,14 @@ PropLeaf ==     \* the only proposition once the fuel is spent
 PropCall ==
   /\ Top("Prop") /\ Composite
   /\ \/ Apply("call_pos2", 1, WP(Atom(ExprAny \o <<P(",")>> \o ExprAny)))
+     \/ \E p \in KwPreds :
+          Apply("kwid_call:" \o p, 1,
+                WP(<<T("pred", p), GP("(")>> \o ExprAny \o <<P(")")>>))
+     \/ Apply("kwid_call_field", 1,
+              WP(Atom(<<T("field", "order_by_f"), P(":")>> \o ExprAny \o
+                      <<P(","), T("field", "max_limit"), P(":")>>)))
+     \/ Apply("kwid_inclusion", 1,
+              WP(<<T("var", "y_in"), KW("in"), T("var", "in_y")>>))
      \/ Apply("call_pos0", 1, WP(Atom(<<>>)))
      \/ Apply("call_named", 1,
               WP(Atom(<<T("field", FieldAt(Here)), P(":")>> \o ExprAny)))
@@ -388,7 +420,8 @@ ExprLeafRot ==   \* the default leaf (free; the only choice once the fuel is spe
 
 ExprLeaf ==
   /\ TopM("Expr", {"any", "prim"}) /\ Composite
-  /\ \/ Apply("number_decimal", 1, <<T("num", DecAt(Here))>>)
+  /\ \/ \E v \in KwVars : Apply("kwid_var:" \o v, 1, <<T("var", v)>>)
+     \/ Apply("number_decimal", 1, <<T("num", DecAt(Here))>>)
      \/ Apply("string_dq", 1, <<T("str", "dq")>>)
      \/ Apply("string_sq", 1, <<T("str", "sq")>>)
      \/ Apply("string_tq", 1, <<T("str", "tq")>>)
@@ -406,6 +439,15 @@ ExprPrimary ==
      \/ Apply("expr_call0", 1, FnCall(<<>>))
      \/ Apply("expr_call_named", 1,
               FnCall(<<T("field", FieldAt(Here)), P(":")>> \o ExprAny))
+     \/ \E p \in KwFns :
+          Apply("kwid_fn:" \o p, 1,
+                <<T("pred", p), GP("(")>> \o ExprAny \o <<P(")")>>)
+     \/ Apply("kwid_implication", 1,
+              <<P("("), KW("if"), T("var", "else_value"), KW("then"),
+                T("var", "on_then"), KW("else"), T("var", "if_y"), P(")")>>)
+     \/ Apply("kwid_combine", 1,
+              <<P("("), KW("combine"), T("agg", "+="), T("var", "combine_y"),
+                P(")")>>)
      \/ Apply("list0", 1, <<P("["), P("]")>>)
      \/ Apply("list1", 1, <<P("[")>> \o ExprAny \o <<P("]")>>)
      \/ Apply("list2", 1,
@@ -517,6 +559,15 @@ Modelled ==
   \cup {"binary:" \o op : op \in BinOps}
   \cup {"unary:" \o op : op \in UnOps}
   \cup {"binary_then_call:" \o op : op \in {"+", "-", "*", "/"}}
+  \cup {"kwid_var:" \o v : v \in KwVars}
+  \cup {"kwid_call:" \o p : p \in KwPreds}
+  \cup {"kwid_fn:" \o p : p \in KwFns}
+  \cup {"kwid_head:" \o p : p \in KwHeads}
+  \cup {"kwid_head_denoted:" \o p :
+          p \in {"Rate_limit", "Count_distinct", "Order_by_x", "Distinct2"}}
+  \cup {"kwid_field:" \o f : f \in KwFields}
+  \cup {"kwid_field_short", "kwid_call_field", "kwid_inclusion",
+        "kwid_implication", "kwid_combine"}
 
 ASSUME PrintT(<<"MODELLED", ToJson(Modelled)>>)
 
